@@ -109,7 +109,18 @@ func managedUpdaters() []managed {
 					suffix("deletions.csv", hdr, func() body { return body{} }),
 					suffix(".tar.zst", hdr, func() body { return b })}
 			},
-			mk:  func(c *http.Client) driver.Updater { return &vex.Updater{} },
+			mk: func(c *http.Client) driver.Updater {
+				// through the factory, as in production (it sets the archive timeout)
+				f := &vex.Factory{}
+				if err := f.Configure(bg, jsonConfig(map[string]string{"url": "http://vex.test/data/"}), c); err != nil {
+					panic(err)
+				}
+				us, err := f.UpdaterSet(bg)
+				if err != nil || len(us.Updaters()) != 1 {
+					panic("vex factory")
+				}
+				return us.Updaters()[0]
+			},
 			cfg: jsonConfig(map[string]string{"url": "http://vex.test/data/"})},
 	}
 }
